@@ -179,6 +179,12 @@ def adfStep (a : AdfSt) (l : String) (ws : List String) : Option (List String ×
       let r := cliRun a mode flags heu perm order
       some ([l, s!"= {r.1}", s!"~ {r.2}"], a)
     | _, _ => some ([l, "= bad-request"], a)
+  | ["clicount", _] =>
+    -- counts are determined by the function and the variable order (canonical diagrams), so the
+    -- natively compiled conditions give the numbers for the naive and the bridged object alike
+    let b := buildNative a.n a.fms.toList
+    let cs := b.2.map (fun t => let c := countF b.1 (t + 1) t; s!"{c.1},{c.2.1}")
+    some ([l, "= exit=0 counts=" ++ (if cs.isEmpty then "-" else joinWith " " cs)], a)
   | ["clibad", _, _, _] => some ([l, "~ rejected"], a)
   | ["cliexport", _] => some ([l, "~ export ok"], a)
   | ["cliq", _] => some ([l, "~ exit=0 T(a&b)_T(c)"], a)
